@@ -56,7 +56,7 @@ def buildErrorName : BuildError → String
 
 def readerErrorName : ReaderError → String
   | .mixedNames => "mixedNames" | .timedUnnamed => "timedUnnamed" | .notEnough => "notEnough"
-  | .invalidIndex => "invalidIndex" | .profileCount => "profileCount" | .unknownName => "unknownName"
+  | .invalidIndex => "invalidIndex" | .profileCount => "profileCount" | .unknownName => "unknownName" | .mixedKnownNames => "mixedKnownNames"
   | .build e => buildErrorName e
 
 def optEq (a : Option Rat) (b : Rat) : Bool :=
@@ -154,7 +154,7 @@ def handlePrag (j : Json) : R (List (String × Json)) := do
   let model : Json :=
     if !codes.isEmpty then Json.mkObj [("err", jList Json.str codes)]
     else
-      match createTransportCosts readerStrict profiles ms with
+      match createTransportCosts readerMode profiles ms with
       | .error e => Json.mkObj [("err", jList Json.str ["E0002:" ++ readerErrorName e])]
       | .ok pr =>
         Json.mkObj [("size", jNat pr.size),
@@ -288,7 +288,7 @@ def handleApprox (j : Json) : R (List (String × Json)) := do
     | [] => 0
     | (_, _, d) :: _ => Nat.sqrt d.length
   let readModel : Json :=
-    match createTransportCosts readerStrict names api with
+    match createTransportCosts readerMode names api with
     | .error e => Json.mkObj [("err", jList Json.str ["E0002:" ++ readerErrorName e])]
     | .ok pr =>
       let pairs := (List.range pr.size).flatMap (fun f => (List.range pr.size).map (fun t => (f, t)))
